@@ -438,6 +438,11 @@ func parseString(p *peeker) (node, hcl.Diagnostics) {
 		} else {
 			errRange = tok.Range
 		}
+		if errRange.End.Byte > tok.Range.End.Byte {
+			// The reported offset can be one past the end of an
+			// unterminated string; never point outside of the token.
+			errRange = tok.Range
+		}
 
 		var contextRange *hcl.Range
 		if errRange != tok.Range {
